@@ -986,11 +986,8 @@ theorem runCmd_obs (c : Ctx) (s s' : State) (conn ref : Nat) (m : Bool) (cmd : C
   case «opaque» => exact ⟨rfl, rfl, rfl, rfl, rfl, hs⟩
   case dbsize =>
     simp only [runCmd, hr, Bool.false_eq_true, ↓reduceIte]
-    rw [session_simS hs conn, hs.table]
-    split
-    · exact obsOut_same hs _ _
-    · rw [liveKeys_length_sim (hs.dbs _)]
-      exact obsOut_same hs _ _
+    rw [liveKeys_length_sim (hs.dbs _)]
+    exact obsOut_same hs _ _
   all_goals
     simp only [runCmd]
     refine onDb_obs hs _ _ (fun a b h => ?_)
